@@ -268,3 +268,24 @@ fn c04_bytes_iter_steps() {
     }
     kani::cover!(true);
 }
+
+// fixed-size arrays: the indefinite form is consumed up to and including its break; too many elements is an error
+// @harness name=c04_array_framing props=C04,C01,C02 kind=complete note="9f x y ff j as [u8; 2] (position 6); 83 x y z as [u8; 2] (error)"
+#[kani::proof]
+#[kani::unwind(5)]
+#[cfg_attr(feature = "alloc", kani::stub(crate::decode::Error::with_message, crate::kani_refspec_stubs::with_message))]
+#[cfg_attr(feature = "alloc", kani::stub(crate::decode::Error::message, crate::kani_refspec_stubs::message))]
+fn c04_array_framing() {
+    let x: u8 = kani::any(); let y: u8 = kani::any(); let z: u8 = kani::any();
+    let buf = [0x9fu8, 0x18, x, 0x18, y, 0xff, z];
+    let mut d = Decoder::new(&buf);
+    match <[u8; 2] as Decode<()>>::decode(&mut d, &mut ()) {
+        Ok(a) => { assert!(a[0] == x && a[1] == y); assert!(d.position() == 6, "the break of the indefinite form must be consumed") }
+        Err(_) => assert!(false)
+    }
+    let buf = [0x83u8, 0x18, x, 0x18, y, 0x18, z];
+    let mut d = Decoder::new(&buf);
+    let r = <[u8; 2] as Decode<()>>::decode(&mut d, &mut ());
+    assert!(r.is_err(), "an array with more elements than the type has was accepted");
+    kani::cover!(true);
+}
